@@ -4,6 +4,10 @@ From Coq Require Import DecimalString DecimalZ DecimalPos.
 From Verif Require Import Base Bytes.
 From Verif.gen Require GenFacts.
 
+(* the separator each of the four key-building sites uses, in srcfacts order:
+   map insert, map lookup, leveldb insert, leveldb lookup *)
+Definition sep_at (n : nat) : string := nth n GenFacts.key_separators ""%string.
+
 Definition us : N := 95%N. (* '_' *)
 
 Definition is_dec_char (c : N) : bool := ((48 <=? c) && (c <=? 57))%N || (c =? 45)%N.
